@@ -21,35 +21,44 @@ Open Scope Z_scope.
    The executable definition of that class is the generator of harness/parser/gen.go; the
    correspondence run of the check compares implementation, model and denotation on it.
 
-   PROVED (below): the statement for 12 of the 17 kinds, in the plain layout (one line per definition
+   PROVED (below): the statement for all 16 dispatching kinds and unknown lines (top-level SG_ excepted), in the plain layout (one line per definition
    or signal, tokens separated by single spaces, LF, every line terminated), any count and order:
      VERSION; BS_ (all three forms); BU_; BO_ with its SG_ lines (plain / multiplexer switch M /
      multiplexed m<k> signals, both byte orders and signs, factor, offset, minimum, maximum, unit,
      one or more receivers; message id valid standard / extended / pseudo id);
      CM_ (all five object forms); VAL_ (signal and environment variable form); VAL_TABLE_;
      SIG_VALTYPE_ (with and without ':'); BO_TX_BU_ (with and without commas); EV_; ENVVAR_DATA_;
+     BA_DEF_ (INT / HEX / FLOAT with and without range, STRING, ENUM; with and without object type);
+     BA_DEF_DEF_ and BA_ (all object forms) with the value typed by the FIRST earlier BA_DEF_ of that
+     name (enum value as string or as index; no value when no such BA_DEF_ exists) - [wf_file] threads
+     the attribute context through the file, [elaborate] uses it for enum indices;
+     NS_ with its symbol list ("NS_ :" and one line LF TAB symbol per symbol);
      unknown lines (identifier / decimal number / punctuation tokens).
-   Numbers read by ParseFloat are optionally signed decimal integers (value = the model's correctly
-   rounded conversion of the digits); unsigned integers < 2^64 without leading zeros; strings over
-   printable ASCII without quote and backslash; positions of value descriptions included.
-   NOT covered by the proof: NS_, BA_DEF_, BA_DEF_DEF_, BA_, top-level SG_, fractional/exponent
-   floats, escaped quotes, UTF-8 and newlines in strings, the other layouts (CRLF, blank lines,
-   indentation, extra spaces, empty gaps, line ends inside definitions). *)
+   Numbers read by ParseFloat are decimal literals  [-] digits [. digits] [(e|E) [+|-] digits]  (no
+   leading zeros; value = the model's correctly rounded conversion of the literal, for INT
+   attributes followed by the model of int64(f); sign applied afterwards as the parser does);
+   unsigned integers < 2^64 without leading zeros; strings over printable ASCII including the
+   escaped quote and backslash-character pairs (kept verbatim); the text of CM_ may in addition contain
+   line ends (each read as one space; the following definitions are then positioned on the later
+   lines) and a backslash before anything but a quote; positions of value descriptions included.
+   NOT covered by the proof: top-level SG_, UTF-8 in strings, line ends in strings other than the
+   CM_ text, the other layouts (CRLF, blank lines, indentation, extra spaces, empty
+   gaps, line ends inside definitions). *)
 
 (** parse (print ds) = Ok (elaborate ds): one definition per source definition, in order, every field
     equal to the source value, position = (line of the definition, column 1, byte offset of its line) *)
 Theorem C04_parse_print_partial : forall (il id : Z -> bool) (ds : list sdef),
-  Forall wf_sdef ds -> parse_bytes il id (print ds) = Ok (elaborate ds).
+  wf_file ds -> parse_bytes il id (print ds) = Ok (elaborate ds).
 Proof. exact parse_print_partial. Qed.
 Print Assumptions C04_parse_print_partial.
 
 (** a line that starts with an unrecognised keyword yields exactly one unknown definition and never
     changes how the following lines are parsed *)
 Theorem C04_unknown_one : forall (il id : Z -> bool) kw ts (ds : list sdef),
-  wf_sdef (SUnknown kw ts) -> Forall wf_sdef ds ->
+  wf_sdef (SUnknown kw ts) -> wf_file ds ->
   parse_bytes il id (print (SUnknown kw ts :: ds))
   = Ok (DUnknown {| p_line := 1; p_column := 1; p_offset := 0 |} kw
-        :: elab_from 2 (blen (print_def (SUnknown kw ts))) ds).
+        :: elab_from [] 2 (blen (print_def (SUnknown kw ts))) ds).
 Proof. exact unknown_one. Qed.
 Print Assumptions C04_unknown_one.
 
@@ -70,16 +79,23 @@ Proof. exact (fun il id => conj (f9_old il id) (f9_fixed il id)). Qed.
 
 (** non-vacuity: a source file with all covered kinds satisfies the hypothesis of the round trip
     (VERSION "1.0" / BS_: 500 : 1 , 2 / BU_: ECU1 ECU2 / BO_ 2566844926 Msg : 8 ECU1 with two lines
-    SG_ Speed m3 : 7 | 16 @ 0 - ( 1 , -40 ) [ -40 | 6513 ] "km/h" ECU2 , ECU1 / FOO_ x 12 ; / BS_: /
+    SG_ Speed m3 : 7 | 16 @ 0 - ( 0.5 , -1.5e1 ) [ -40 | 6E+3 ] "km/h" ECU2 , ECU1 / FOO_ x 12 ; / BS_: /
     VERSION "") ... *)
-Example C04_nonvacuous : Forall wf_sdef sample_ds /\ List.length sample_ds = 7%nat.
-Proof. exact (conj sample_ds_wf eq_refl). Qed.
+Example C04_nonvacuous : wf_file sample_ds /\ List.length sample_ds = 7%nat.
+Proof. exact (conj sample_ds_wf_file eq_refl). Qed.
 
-(** ... as does a file with the one-line kinds (CM_ SG_ 1 S "hi" ; / CM_ "" ; / VAL_ 1 S -1 "a" 2 "" ; /
+(** ... as does a file with NS_ (two symbols, then an empty NS_) and the one-line kinds (CM_ SG_ 1 S "hi" ; / CM_ with escaped quotes, backslashes and three line ends in the text ; / VAL_ 1 S -1 "a" 2 "" ; /
     VAL_ E ; / VAL_TABLE_ T 0 "z" ; / SIG_VALTYPE_ 1 S : 1 ; / SIG_VALTYPE_ 1 S 2 ; / BO_TX_BU_ 1 : A , B ; /
     EV_ E : 1 [ 0 | 9 ] "V" -3 7 DUMMY_NODE_VECTOR2 N , M ; / ENVVAR_DATA_ E : 8 ;) *)
-Example C04_nonvacuous_one_line_kinds : Forall wf_sdef sample2_ds /\ List.length sample2_ds = 10%nat.
-Proof. exact (conj sample2_ds_wf eq_refl). Qed.
+Example C04_nonvacuous_one_line_kinds : wf_file sample2_ds /\ List.length sample2_ds = 12%nat.
+Proof. exact (conj sample2_ds_wf_file eq_refl). Qed.
+
+(** ... and a file with attribute definitions, defaults and values: BA_DEF_ "A" INT 0 100 ; / BA_DEF_ SG_ "E"
+    ENUM "x" , "y" ; / BA_DEF_ BO_ "F" FLOAT ; / BA_DEF_ BU_ "S" STRING ; / BA_DEF_ EV_ "H" HEX ; / BA_DEF_ "A"
+    STRING ; (second definition of A, not used for typing) / BA_DEF_DEF_ "A" 5 ; / BA_DEF_DEF_ "E" 1 ; /
+    BA_DEF_DEF_ "Z" ; / BA_ "A" BO_ 1 -3 ; / BA_ "E" SG_ 1 S "y" ; / BA_ "S" BU_ N "t" ; / BA_ "F" 2 ; / BA_ "H" EV_ V 7 ; *)
+Example C04_nonvacuous_attributes : wf_file sample3_ds /\ List.length sample3_ds = 14%nat.
+Proof. exact (conj sample3_ds_wf_file eq_refl). Qed.
 
 (** ... and the model parses a file of other kinds (BO_/SG_ with extended id, multiplexed big-endian
     signed signal, unknown line, two-line comment) to six definitions *)
